@@ -27,9 +27,9 @@ mcPrefixPairs == {<<"", "">>, <<"x", "">>, <<"xy", "">>, <<"y", "">>,
 mcProjOfName == <<>>
 mcOps == {"CreateTopic", "DeleteTopic", "CreateSub", "DeleteSub", "UpdateSub", "Publish", "Pull", "Ack",
           "ModAck", "Nack", "SeekTime", "CreateSnap", "DeleteSnap", "SeekSnap", "DLSweep",
-          "ExpireSubs", "Tick", "StreamAN", "RacePull"} \cup PruneJobs
+          "ExpireSubs", "Tick", "StreamAN", "RacePull", "AckNack"} \cup PruneJobs
 W0 == [op \in mcOps |-> 1]
-mcWeights == [W0 EXCEPT !["Publish"] = 6, !["Pull"] = 10, !["Ack"] = 4, !["ModAck"] = 3, !["Nack"] = 3, !["StreamAN"] = 3, !["RacePull"] = 3,
+mcWeights == [W0 EXCEPT !["Publish"] = 6, !["Pull"] = 10, !["Ack"] = 4, !["ModAck"] = 3, !["Nack"] = 3, !["StreamAN"] = 3, !["RacePull"] = 3, !["AckNack"] = 3,
                         !["Tick"] = 8, !["SeekTime"] = 2, !["SeekSnap"] = 2, !["CreateSnap"] = 2,
                         !["CreateSub"] = 4, !["DeleteSub"] = 3, !["UpdateSub"] = 4, !["DLSweep"] = 2]
 =============================================================================
